@@ -34,14 +34,8 @@ type tItem struct {
 
 const nsW = foreign.NSW
 
-func bodyItems(main []byte) ([]tItem, error) { return collectItems(main, false) }
-
-// cellOrderItems returns the items in the order they have when, in every table cell, the cell's own
-// paragraphs are moved before its nested tables (recursively) - what a writer that keeps a cell's
-// paragraphs and tables in two lists produces. Equal to bodyItems when no cell has a table before a paragraph.
-func cellOrderItems(main []byte) ([]tItem, error) { return collectItems(main, true) }
-
-func collectItems(main []byte, cellParasFirst bool) ([]tItem, error) {
+// bodyItems returns every w:t under w:body in document order, with its nesting.
+func bodyItems(main []byte) ([]tItem, error) {
 	root, err := canon.Parse(main)
 	if err != nil {
 		return nil, err
@@ -58,19 +52,6 @@ func collectItems(main []byte, cellParasFirst bool) ([]tItem, error) {
 	walk = func(n *canon.Node) {
 		if n.Is(nsW, "t") {
 			ts = append(ts, n)
-		}
-		if cellParasFirst && n.Is(nsW, "tc") {
-			for _, k := range n.Kids {
-				if !k.Is(nsW, "tbl") {
-					walk(k)
-				}
-			}
-			for _, k := range n.Kids {
-				if k.Is(nsW, "tbl") {
-					walk(k)
-				}
-			}
-			return
 		}
 		for _, k := range n.Kids {
 			walk(k)
@@ -125,18 +106,6 @@ func collectItems(main []byte, cellParasFirst bool) ([]tItem, error) {
 		out = append(out, it)
 	}
 	return out, nil
-}
-
-func sameOrder(a, b []tItem) bool {
-	if len(a) != len(b) {
-		return false
-	}
-	for i := range a {
-		if a[i].Text != b[i].Text || a[i].Path != b[i].Path {
-			return false
-		}
-	}
-	return true
 }
 
 // explains reports whether saved can be written as the concatenation, in order, of the items that
@@ -194,19 +163,14 @@ func searchDrop(items []tItem, saved string, whole bool, cats []string) []string
 	return best
 }
 
-// textLoss explains the saved text. ok: every item kept in document order. Otherwise, in this order of
-// preference: (1) every item kept, cells written with their paragraphs before their nested tables
-// (reordered = true, no class); (2) loss of nesting classes that have an open finding (prefer), in
-// document order, then with the cell reordering; (3) loss of any nesting classes, same two orders;
-// (4) ["other"]. An item nested several ways can be explained by any of its classes; trying the open
-// classes first blames a loss on a closed class only when the open ones cannot explain it.
-func textLoss(items, cellOrder []tItem, saved string, whole bool, prefer map[string]bool) (ok, reordered bool, classes []string) {
+// textLoss explains the saved text in strict document order. ok: every item kept, in the order of the opened
+// package. Otherwise, in this order of preference: (1) loss of nesting classes that have an open finding (prefer);
+// (2) loss of any nesting classes; (3) ["other"] - which includes every change of order: text that is still there
+// but somewhere else is lost at its place. An item nested several ways can be explained by any of its classes; trying
+// the open classes first blames a loss on a closed class only when the open ones cannot explain it.
+func textLoss(items []tItem, saved string, whole bool, prefer map[string]bool) (ok bool, classes []string) {
 	if explains(items, saved, whole, nil) {
-		return true, false, nil
-	}
-	hasRe := cellOrder != nil && !sameOrder(cellOrder, items)
-	if hasRe && explains(cellOrder, saved, whole, nil) {
-		return false, true, nil
+		return true, nil
 	}
 	var pref []string
 	for _, c := range allCats {
@@ -216,15 +180,24 @@ func textLoss(items, cellOrder []tItem, saved string, whole bool, prefer map[str
 	}
 	for _, cats := range [][]string{pref, allCats} {
 		if best := searchDrop(items, saved, whole, cats); best != nil {
-			return false, false, best
-		}
-		if hasRe {
-			if best := searchDrop(cellOrder, saved, whole, cats); best != nil {
-				return false, true, best
-			}
+			return false, best
 		}
 	}
-	return false, false, []string{"other"}
+	return false, []string{"other"}
+}
+
+// orderHint: diagnostics for a text that is not kept in order - are the same characters still all there?
+func orderHint(before, after string, whole bool) string {
+	if !whole || len(before) != len(after) {
+		return ""
+	}
+	a, b := []byte(before), []byte(after)
+	sort.Slice(a, func(i, j int) bool { return a[i] < a[j] })
+	sort.Slice(b, func(i, j int) bool { return b[i] < b[j] })
+	if string(a) == string(b) {
+		return " [the saved text has the same bytes in another order: text moved]"
+	}
+	return ""
 }
 
 func firstOf(items []tItem, cat string) string {
